@@ -130,11 +130,22 @@ def c16(run):
             c2["in"]["retry" if rnd.random() < 0.5 else "concHead"] = True
             extra.append(c2)
             nretry += 1
+    # replay-only variant (same prediction, which is in ticks): the row on a time scale of 1.5 s or 0.5 s per tick instead of
+    # one hour, so that block time and window are not whole seconds
+    nscale = 0
+    for c in list(cases):
+        i_ = c["in"]
+        if i_["bt"] >= 1 and c["allowed"] and not c["kf"] and c["predicted"]["kind"] == "ok" and rnd.random() < (0.06 if quick else 0.5):
+            c2 = copy.deepcopy(c)
+            c2["in"]["tickMs"] = rnd.choice([1500, 500])
+            extra.append(c2)
+            nscale += 1
+    run.cov["time_scale_variants"] = nscale
     run.cov["retry_concHead_variants"] = nretry
     deep = deep_tail_rows(quick)
     cases = cases + extra + deep
     run.cov["deep_move_down_rows"] = len(deep)
-    run.cov["tpSmall_variants"] = len(extra) - nhash - nretry
+    run.cov["tpSmall_variants"] = len(extra) - nhash - nretry - nscale
     run.cov["byHash_variants"] = nhash
     for i, c in enumerate(cases):
         c["id"] = i
